@@ -9,7 +9,8 @@ EXPL = ("R11.1 count flow: in each of the three observation-capture bodies every
         "R11.2 sibling agreement on a deliberately coarse abstraction: the three capture copies have equal arm tables; the atomic and "
         "non-atomic exponential strategies apply the same scaling, pass the count parameter, filter on count > 0, rebuild Repeated{"
         "scale_down(midpoint)*count, count} and use the same bucket configuration. Pure arithmetic adapters (min/max/casts) are "
-        "ignored. R11.3 the sort-and-merge drain groups observations on exact equality only (no tolerance arithmetic feeds the merge decision). "
+        "ignored. R11.4 an exponential drain visits every bucket of its snapshot (no take_while/take/skip/step_by on the bucket iteration, directly or "
+        "in a helper); R11.3 the sort-and-merge drain groups observations on exact equality only (no tolerance arithmetic feeds the merge decision). "
         "Not decided: the 6.25% / 1/1024 error bounds, totals (numeric).")
 AG = "metrique_aggregation"
 
@@ -269,7 +270,20 @@ def run(ctx):
     dsum = {}
     for b in drains:
         key = fnkey(b)
-        units = [b] + list(F.closures_of(b))       # iterator-adapter form (filter/map closures) or plain loop form: both are read
+        # iterator-adapter form (filter/map closures), plain loop form, or either of them inside a private helper of the module that the
+        # drain hands its bucket snapshot to: all are read
+        units = [b] + list(F.closures_of(b))
+        for c_ in b.calls():
+            for hb in local_callee_bodies(F, c_):
+                if hb.crate == AG and "histogram" in hb.path and hb.kind == "Fn" and hb.name not in CONFIG_FN and hb not in units:
+                    units += [hb] + list(F.closures_of(hb))
+        # R11.4 every bucket is looked at: no adapter that ends or thins the iteration over the snapshot
+        trunc = [(u, c_) for u in units for c_ in u.calls() if c_.name in ("take_while", "take", "skip", "skip_while", "step_by", "nth", "map_while", "scan", "find", "position")
+                 and "iter" in (c_.def_ or "")]
+        ctx.check(not trunc, "R11.4", key + "#every-bucket-visited", loc(trunc[0][0], trunc[0][1].bb) if trunc else loc(b),
+                  "the drain ends or thins its pass over the buckets with `%s`: a bucket that holds observations beyond the cut is never reported "
+                  "(counts are not conserved)" % (trunc[0][1].name if trunc else ""),
+                  "bucket iteration uses only filter(count > 0) / map / collect")
         fsum = None
         msum = None
         for cb in units:
